@@ -112,7 +112,7 @@ def parse(out, sel, res):
         res["harnesses"].append(hrec)
         # failed checks
         fails = []
-        for cm in re.finditer(r"(?ms)^Check \d+: (\S+)\n\s*- Status: (\w+)\n\s*- Description: \"(.*?)\"\n(?:\s*- Location: (.*?)\n)?", b):
+        for cm in re.finditer(r"(?m)^Check \d+: (.+)\n\s*- Status: (\w+)\n\s*- Description: \"(.*?)\"\n(?:\s*- Location: (.*?)\n)?", b):
             cid, st, desc, loc = cm.group(1), cm.group(2), cm.group(3), cm.group(4)
             if "RETURNED-NORMALLY" in desc:
                 if st == "SATISFIED":
